@@ -17,7 +17,7 @@ Reading of an assignment `x : Vec`: on `x (r.core.layout.on t)`, start flag `x (
 `r.core.R` = minimum runtime in steps INCLUDING `S + Q` (`resolved_wf`).
 
 (a) flags and on/off patterns: `first_step_flags`, `flags_all_steps`, `flags_exact`, `flag_rows_iff`,
-    `both_flags_at_last_step_feasible`, `commit_rows_iff_spec_prof`, `commit_rows_iff_automaton_prof`,
+    `both_flags_at_last_step_now_rejected`, `commit_rows_iff_spec_prof`, `commit_rows_iff_automaton_prof`,
     `feasible_pattern_respects_spec`, `resolved_wf`.
 (b) heat profile rows: `heat_profile_rows`, `heat_start_profile_bounds`, `heat_shutdown_profile_bounds`,
     `heat_outside_ramps`, `heat_profile_needs_shutdown_heat`, `start_heat_profile_ignored`.
@@ -54,48 +54,43 @@ theorem first_step_flags (r : CHPRP) (hwf : CommitWFP r) (x : Vec) (hx : (assemb
     (r.core.tar ≠ 0 → x (r.core.layout.start 0) = 0 ∧ x (r.shut 0) = 1 - x (r.core.layout.on 0)) :=
   CHPProfCommit.first_step_flags r hwf x hx
 
-/-- ALL steps, feasible points with 0/1 on / start / shutdown values: the start flag is 1 exactly when the unit switches
-    on at `t` (`StartsAt`: off → on; at step 0 "was off and is on"), the shutdown flag is 1 exactly when it switches
-    off (`StopsAt`) — or (`FlagBothAt`, possible ONLY at the last step `t = T − 1 ≥ 1`) both flags are 1 and nothing
-    switches -/
+/-- ALL steps (first and last included), feasible points with 0/1 on / start / shutdown values: both flags are exact
+    transition indicators (`FlagExactAt`): the start flag is 1 exactly when the unit switches on at `t` (`StartsAt`:
+    off → on; at step 0 "was off and is on"), the shutdown flag exactly when it switches off (`StopsAt`).  (Before the
+    repair e7aae05 of /repo the last step admitted "both flags 1, nothing switches".) -/
 theorem flags_all_steps (r : CHPRP) (hwf : CommitWFP r) (x : Vec) (hx : (assembleCHPP r).FeasibleRelaxed x)
-    (hb : Binary r x) (t : Nat) (ht : t < r.core.T) : FlagExactAt r x t ∨ FlagBothAt r x t :=
+    (hb : Binary r x) (t : Nat) (ht : t < r.core.T) : FlagExactAt r x t :=
   flags_of_feasible r hwf x hx hb t ht
 
-/-- … hence at every step but the last (and at the last one when `T = 1`) the flags ARE exact transition indicators -/
+/-- … the same spelled out, for EVERY step `t < T` -/
 theorem flags_exact (r : CHPRP) (hwf : CommitWFP r) (x : Vec) (hx : (assembleCHPP r).FeasibleRelaxed x)
-    (hb : Binary r x) (t : Nat) (ht : t < r.core.T) (hlast : t = 0 ∨ t + 1 < r.core.T) :
-    (x (r.core.layout.start t) = 1 ↔ StartsAt r x t) ∧ (x (r.shut t) = 1 ↔ StopsAt r x t) := by
-  rcases flags_of_feasible r hwf x hx hb t ht with h | ⟨h1, h2, _⟩
-  · exact h
-  · omega
+    (hb : Binary r x) (t : Nat) (ht : t < r.core.T) :
+    (x (r.core.layout.start t) = 1 ↔ StartsAt r x t) ∧ (x (r.shut t) = 1 ↔ StopsAt r x t) :=
+  flags_of_feasible r hwf x hx hb t ht
 
 /-- EXACTLY: on a 0/1 point the start / shutdown definition rows, the exclusion rows and the bounds of the flag variables
-    hold iff every step's flags are exact transition indicators, except possibly "both 1, nothing switches" at the last
-    step -/
+    hold iff at every step both flags are exact transition indicators -/
 theorem flag_rows_iff (r : CHPRP) (hwf : CommitWFP r) (x : Vec) (hb : Binary r x) :
     ((∀ row ∈ r.startShutRows, row.Sat x) ∧
      (∀ t, t < r.core.T → r.lower.getD (r.core.layout.start t) 0 ≤ x (r.core.layout.start t) ∧
         x (r.core.layout.start t) ≤ r.upper.getD (r.core.layout.start t) 0) ∧
      (∀ t, t < r.core.T → r.lower.getD (r.shut t) 0 ≤ x (r.shut t) ∧ x (r.shut t) ≤ r.upper.getD (r.shut t) 0)) ↔
-    ∀ t, t < r.core.T → (FlagExactAt r x t ∨ FlagBothAt r x t) :=
+    ∀ t, t < r.core.T → FlagExactAt r x t :=
   CHPProfCommit.flag_rows_iff r hwf x hb
 
-/-- the exception is real (observation P-2 of notes/findings_chp.md, context of `C06.last_step_flags_not_exclusive`): for
-    `Plant(min 3, max 10, start ramp [1]…[2])` on two steps the point on `11`, start `11`, shutdown `01` is feasible, 0/1,
-    and has both flags set at the last step although nothing switches -/
-theorem both_flags_at_last_step_feasible :
-    ∃ x : Vec, (assembleCHPP CHPProfile.witnessLast).FeasibleRelaxed x ∧ Binary CHPProfile.witnessLast x ∧
-      FlagBothAt CHPProfile.witnessLast x 1 ∧ ¬ FlagExactAt CHPProfile.witnessLast x 1 := by
-  refine ⟨fun j => [1, 1, 1, 1, 1, 1, 0, 1].getD j 0, ?_, ?_, ?_, ?_⟩
-  · unfold AssetProblem.FeasibleRelaxed InBounds
-    decide +kernel
-  · intro t ht
-    have ht' : t < 2 := ht
-    have : t = 0 ∨ t = 1 := by omega
-    rcases this with rfl | rfl <;> decide +kernel
-  · unfold FlagBothAt; decide +kernel
-  · unfold FlagExactAt StartsAt StopsAt; decide +kernel
+/-- the former witness of finding 1 of notes/findings_c06prof.md (observation P-2 of notes/findings_chp.md; repaired in
+    /repo by commit e7aae05) — `Plant(min 3, max 10, start ramp [1]…[2])` on two steps, on `11`, start `11`, shutdown `01`,
+    both flags set at the last step although nothing switches — is now REJECTED by the generated problem, and a 0/1 point
+    with both flags set at a step cannot be feasible at all -/
+theorem both_flags_at_last_step_now_rejected :
+    ¬ (assembleCHPP CHPProfile.witnessLast).FeasibleRelaxed (fun j => [1, 1, 1, 1, 1, 1, 0, 1].getD j 0) ∧
+    ∀ (r : CHPRP) (x : Vec), (assembleCHPP r).FeasibleRelaxed x → ∀ t, t < r.core.T →
+      ¬ (x (r.core.layout.start t) = 1 ∧ x (r.shut t) = 1) := by
+  refine ⟨CHPProfile.last_step_witness_now_rejected.1, ?_⟩
+  intro r x hx t ht ⟨h1, h2⟩
+  have h := CHPProfile.no_overlap r x hx t ht
+  rw [h1, h2] at h
+  exact absurd h (by decide +kernel)
 
 /-- (1a) WITH shutdown variables, unbounded in `T`, `R`, `D`, the profile lengths and the initial state: a pattern `on`
     (as 0/1 values of the on variables) extends to a 0/1 assignment of the start and shutdown variables satisfying the
@@ -150,7 +145,12 @@ example : Binary CHPProfile.witnessShut CHPProfile.xShut ∧
     have ht' : t < 5 := ht
     have : t = 0 ∨ t = 1 ∨ t = 2 ∨ t = 3 ∨ t = 4 := by omega
     rcases this with rfl | rfl | rfl | rfl | rfl <;> decide +kernel
-  · exact (flags_exact _ hwf _ CHPProfile.witnessShut_feasible hb 3 (by decide) (Or.inr (by decide))).2
+  · exact (flags_exact _ hwf _ CHPProfile.witnessShut_feasible hb 3 (by decide)).2
+
+/-- non-vacuity of `both_flags_at_last_step_now_rejected`: the same plant with exact flags at the last step (start `10`,
+    shutdown `00`) and at least `min_cap` there is feasible -/
+example : (assembleCHPP CHPProfile.witnessLast).FeasibleRelaxed (fun j => [1, 3, 1, 1, 1, 0, 0, 0].getD j 0) :=
+  CHPProfile.last_step_witness_now_rejected.2
 
 /-! ## (b) the heat-profile rows (`heatProfRows`: `start/shutdown_ramp_*_bounds_heat`)
 
